@@ -434,3 +434,27 @@ def random_member(space, rng):
         out.append(p)
         out.extend(random_member(e['cands'][p], rng))
   return tuple(out)
+
+
+# --------------------------------------------------------------------------
+# Float decision points of a description (added for C11; nothing above uses it).
+# --------------------------------------------------------------------------
+
+def float_elems(space):
+  """Every float element of a description, in declaration order (each once,
+  whatever the number of picks of the choices above it)."""
+  out = []
+  for e in space['elems']:
+    if e['t'] == 'float':
+      out.append(e)
+    elif e['t'] == 'choice':
+      for c in e['cands']:
+        out.extend(float_elems(c))
+  return out
+
+
+def float_member(elem, v):
+  """Reference membership of one float decision: a float inside the closed
+  range [lo, hi] (NaN is inside no range); `scale` is a hint and never
+  changes the set."""
+  return isinstance(v, float) and v == v and elem['lo'] <= v <= elem['hi']
